@@ -1,0 +1,13 @@
+//go:build !verif
+
+package dicescript
+
+import "golang.org/x/exp/rand"
+
+// Empty stubs of the verification hooks (see verif_hooks.go, build tag "verif").
+
+func verifRoll(src *rand.PCGSource, sides IntType) (IntType, bool) { return 0, false }
+
+func verifStep(ctx *Context, pc, top, blockDepth, fstrDepth, diceDepth, nDetails int) {}
+
+func verifShared(name string, write bool) {}
